@@ -16,6 +16,7 @@ from typing import Dict, List, Set, Tuple
 
 from ..index import AnalysisError, Index, call_name, norm, walk_no_nested
 from ..report import Report
+from ..rules2 import fact_holds
 from ..rules import cfg_of, guards_dominating
 
 LC = "model.walkers.linear_checker.LinearChecker"
@@ -148,7 +149,7 @@ def run(idx: Index, rep: Report, tier: str) -> None:
         ok = False
         for n in fc.nodes:
             if n.kind == "return" and isinstance(n.ast.value, ast.Tuple) and [norm(e) for e in n.ast.value.elts][1:] == ["set()", "set()"]:
-                if any(norm(t.ast) == "not is_linear" and o for t, o in guards_dominating(fc, n)):
+                if fact_holds(guards_dominating(fc, n), "is_linear", False):
                     ok = True
         rep.check(ok, rule2, f"{name}: a non-linear verdict carries no monotonicity claim", f.loc(), construct="if not is_linear: return (is_linear, set(), set())", function=f.qualname)
     wm = _lc(idx, "walk_minus")
